@@ -604,8 +604,6 @@ def lean_request(p):
         return None
     # the Lean model runs the history with ONE extra read statement inserted; its observation is dropped afterwards
     from props import c06
-    if any(st["s"] == "unique" for st in p["prog"]):
-        return None
     return {"op": "Heap.run", "prog": c06.lean_prog(_ins_prog(p))}
 
 
